@@ -113,7 +113,10 @@ def build_site(site):
                         ("S-lead", [(4, 3, "GAT")], None),
                         ("S-trail", None, [(4, 3, "TAG")]),
                         ("H-lead", [(5, 5, "")], None),
+                        ("H-lead-long", [(5, 23, "")], None),
+                        ("H-trail", None, [(5, 17, "")]),
                         ("S-both", [(4, 2, "CC")], [(4, 4, "GGTT")]),
+                        ("HS-lead", [(5, 9, ""), (4, 13, "GATTACAGATTAC")], [(4, 2, "AC"), (5, 4, "")]),
                     ):
                         nm, _ = add(seq, variants, [a], start, end, "M", pre, post)
                         exp[nm] = {"v": {0: a}, "cover": {0: fully_covers(v, a, start, end)}, "clean": True, "style": style, "shiftable": shiftable, "geom": (a, so, eo)}
@@ -222,10 +225,12 @@ def sites(tier):
     T = tier == "thorough"
     out = []
     kinds = [("SNV", 1), ("MNP", 2), ("MNP", 3), ("INS", 1), ("INS", 2), ("INS", 3), ("DEL", 1), ("DEL", 2), ("DEL", 3)]
+    if T:
+        kinds += [("MNP", 4), ("INS", 5), ("DEL", 5), ("INS", 8), ("DEL", 8)]
     for rep in range(3 if T else 1):
         for kind, vlen in kinds:
             out.append((kind, vlen, "random", seed0 + rep))
-            if kind in ("INS", "DEL"):
+            if kind in ("INS", "DEL") and vlen <= 6:  # the repeat run built by site_reference has 7 units
                 out.append((kind, vlen, "homopolymer", seed0 + rep))
                 if vlen <= 2:
                     out.append((kind, vlen, "dinuc", seed0 + rep))
